@@ -274,40 +274,93 @@ static void classify_ubsan(const std::string &err, Violation &v)
     v.detail = msg;
 }
 
-// ---- where a run was when its watchdog expired.
-// The dying child writes the raw return addresses of its stack ("HANGPC ..."); the parent, whose address space the
-// child inherited, resolves them.  The site of a hang is the function through which the run entered the module it was
-// looping in: take the innermost library frame outside the general-purpose containers, then walk outwards while the
-// frames stay in the same source file.  That names fsg_model_null_trans_closure whether the sample fell in the loop
-// itself, in a helper of the same file or in a hash-table call below it.
-static void hang_handler(int sig)
+// ---- where a run spent its time when its watchdog expired.
+// The watchdog is a sampling profiler on the run's own processor time: every quarter second of CPU the handler notes
+// the raw return addresses of the stack; when the budget is used up the dying child writes the samples ("HANGPC ...",
+// one line each) and the parent, whose address space the child inherited, resolves them.  The site of one sample is
+// the function through which the run entered the module it was in: the innermost library frame outside the
+// general-purpose containers, then outwards while the frames stay in the same source file (that names
+// fsg_model_null_trans_closure whether the sample fell in the loop itself, in a helper of the same file or in a
+// hash-table call below it).  The site of the hang is the most frequent sample site, i.e. where the time went, not
+// where the run happened to be at the last instant.
+static const int HANG_TICK_US = 250000, HANG_DEPTH = 40, HANG_KEEP = 160;
+static void *g_hang_pcs[HANG_KEEP][HANG_DEPTH];
+static int g_hang_n[HANG_KEEP];
+static volatile long g_hang_ticks = 0, g_hang_limit = 0;
+
+static void hang_dump_and_die(int sig)
 {
-    void *pcs[48];
-    int n = backtrace(pcs, 48);
-    char buf[48 * 20 + 16];
-    size_t o = 0;
-    memcpy(buf + o, "\nHANGPC", 8);
-    o += 8;
-    for (int i = 0; i < n; ++i) {
-        uintptr_t v = (uintptr_t)pcs[i];
-        buf[o++] = ' ';
-        for (int sh = 60; sh >= 0; sh -= 4)
-            buf[o++] = "0123456789abcdef"[(v >> sh) & 15];
+    static char buf[HANG_DEPTH * 20 + 16];
+    long have = g_hang_ticks < HANG_KEEP ? g_hang_ticks : HANG_KEEP;
+    for (long sidx = 0; sidx < have; ++sidx) {
+        size_t o = 0;
+        memcpy(buf + o, "\nHANGPC", 7);
+        o += 7;
+        for (int i = 0; i < g_hang_n[sidx]; ++i) {
+            uintptr_t v = (uintptr_t)g_hang_pcs[sidx][i];
+            buf[o++] = ' ';
+            for (int sh = 60; sh >= 0; sh -= 4)
+                buf[o++] = "0123456789abcdef"[(v >> sh) & 15];
+        }
+        buf[o++] = '\n';
+        if (write(2, buf, o) < 0) {}
     }
-    buf[o++] = '\n';
-    if (write(2, buf, o) < 0) {}
     signal(sig, SIG_DFL);
     raise(sig);
 }
 
-static std::string hang_site(const std::string &err)
+static void hang_handler(int sig)
+{
+    if (sig == SIGPROF) {
+        long t = g_hang_ticks;
+        int slot = (int)(t % HANG_KEEP);
+        g_hang_n[slot] = backtrace(g_hang_pcs[slot], HANG_DEPTH);
+        g_hang_ticks = t + 1;
+        if (g_hang_limit <= 0 || g_hang_ticks < g_hang_limit)
+            return;
+    } else if (g_hang_ticks == 0) { // wall-clock backstop with no CPU used: note where the run is blocked
+        g_hang_n[0] = backtrace(g_hang_pcs[0], HANG_DEPTH);
+        g_hang_ticks = 1;
+    }
+    hang_dump_and_die(sig);
+}
+
+static void hang_arm(int budget_s)
+{
+    g_hang_ticks = 0;
+    g_hang_limit = (long)budget_s * (1000000 / HANG_TICK_US);
+    struct itimerval it;
+    memset(&it, 0, sizeof it);
+    it.it_value.tv_usec = it.it_interval.tv_usec = HANG_TICK_US;
+    setitimer(ITIMER_PROF, &it, nullptr);
+    alarm((unsigned)budget_s * 20);
+}
+
+static void hang_disarm()
+{
+    struct itimerval it;
+    memset(&it, 0, sizeof it);
+    setitimer(ITIMER_PROF, &it, nullptr);
+    alarm(0);
+    g_hang_limit = 0;
+}
+
+void watchdog_arm(int cpu_seconds) { hang_arm(cpu_seconds); }
+
+static void hang_install()
+{
+    struct sigaction sa;
+    memset(&sa, 0, sizeof sa);
+    sa.sa_handler = hang_handler;
+    sa.sa_flags = SA_RESTART;
+    sigemptyset(&sa.sa_mask);
+    sigaction(SIGPROF, &sa, nullptr);
+    sigaction(SIGALRM, &sa, nullptr);
+}
+
+static std::string sample_site(const std::string &line)
 {
 #ifdef SIM_HAVE_SYMBOLIZER
-    size_t a = err.rfind("HANGPC");
-    if (a == std::string::npos)
-        return "-";
-    size_t e = err.find('\n', a);
-    std::string line = err.substr(a + 6, e == std::string::npos ? std::string::npos : e - a - 6);
     std::vector<std::pair<std::string, std::string>> frames; // (function, file basename), innermost first, library frames only
     size_t p = 0;
     int idx = 0;
@@ -347,15 +400,40 @@ static std::string hang_site(const std::string &err)
     while (k < frames.size() && is_util(frames[k].second))
         ++k;
     if (k == frames.size())
-        return frames.empty() ? "-" : frames.back().first;
+        return frames.empty() ? "" : frames.back().first;
     size_t m = k;
     while (m + 1 < frames.size() && frames[m + 1].second == frames[k].second)
         ++m;
     return frames[m].first;
 #else
-    (void)err;
-    return "-";
+    (void)line;
+    return "";
 #endif
+}
+
+static std::string hang_site(const std::string &err)
+{
+    std::map<std::string, int> votes;
+    std::map<std::string, std::string> cache; // raw line -> site (a tight loop gives many identical samples)
+    size_t a = 0;
+    while ((a = err.find("HANGPC", a)) != std::string::npos) {
+        size_t e = err.find('\n', a);
+        std::string line = err.substr(a + 6, e == std::string::npos ? std::string::npos : e - a - 6);
+        a = e == std::string::npos ? err.size() : e;
+        auto it = cache.find(line);
+        if (it == cache.end())
+            it = cache.emplace(line, sample_site(line)).first;
+        if (!it->second.empty())
+            votes[it->second]++;
+    }
+    std::string best = "-";
+    int n = 0;
+    for (auto &kv : votes)
+        if (kv.second > n) {
+            n = kv.second;
+            best = kv.first;
+        }
+    return best;
 }
 
 static void classify_death(int status, const std::string &err, Violation &v)
@@ -469,6 +547,7 @@ struct Exec {
     bool harness_fault = false;
     std::string harness_msg;
     std::string last_err; // captured stderr of the last child that died
+    bool confirm = false; // confirming a violation (shrinker, replay): tighter watchdog, see run_child
 };
 
 static void exec_init(Exec &x, World *w, const std::string &prop, int tier)
@@ -505,8 +584,7 @@ static size_t run_child(Exec &x, const std::vector<RunSpec> &specs, size_t from,
     if (pid == 0) {
         dup2(x.errfd, 2);
         dup2(x.devnull, 1);
-        signal(SIGALRM, hang_handler);
-        signal(SIGPROF, hang_handler);
+        hang_install();
         signal(SIGPIPE, SIG_IGN);
         for (size_t k = from; k < specs.size(); ++k) {
             const RunSpec &sp = specs[k];
@@ -517,14 +595,10 @@ static size_t run_child(Exec &x, const std::vector<RunSpec> &specs, size_t from,
             x.sh->note[0] = 0;
             x.sh->phase = 1;
             // the watchdog counts the run's own processor time (the library never blocks: all its I/O is simulated), so a
-            // loaded machine cannot turn a slow run into a "hang"; the wall-clock alarm is only a distant backstop
-            {
-                struct itimerval it;
-                memset(&it, 0, sizeof it);
-                it.it_value.tv_sec = x.w->watchdog_s(x.prop);
-                setitimer(ITIMER_PROF, &it, nullptr);
-                alarm((unsigned)x.w->watchdog_s(x.prop) * 20);
-            }
+            // loaded machine cannot turn a slow run into a "hang"; the wall-clock alarm is only a distant backstop.  When a
+            // violation is being confirmed (minimisation, replay) the budget is 80% of the sweep's, so that a run that
+            // exceeded the budget in the sweep by a hair exceeds it here for certain
+            hang_arm(x.confirm ? std::max(1, x.w->watchdog_s(x.prop) * 4 / 5) : x.w->watchdog_s(x.prop));
             Json gen;
             const Json *plan = sp.plan;
             if (!plan) {
@@ -539,12 +613,7 @@ static size_t run_child(Exec &x, const std::vector<RunSpec> &specs, size_t from,
             ctx.cur_op = &x.sh->cur_op;
             ctx.note = x.sh->note;
             x.w->execute(*plan, ctx);
-            alarm(0);
-            {
-                struct itimerval it;
-                memset(&it, 0, sizeof it);
-                setitimer(ITIMER_PROF, &it, nullptr);
-            }
+            hang_disarm();
             x.sh->phase = 2;
             uint64_t pd = fnv1a(plan->dump());
             write_all(out_fd, outcome_line(sp, pd, out, sp.want_plan ? plan : nullptr));
@@ -855,6 +924,7 @@ static void shrink_one(World *w, const std::string &prop, int tier, uint64_t roo
 {
     Exec x;
     exec_init(x, w, prop, tier);
+    x.confirm = true;
     w->setup(prop, tier);
     uint64_t seed = run_seed(root_seed, prop, idx);
     Json plan = w->generate_indexed(prop, seed, tier, idx);
@@ -957,6 +1027,7 @@ static int do_replay(const std::string &path, bool verbose)
     int tier = rep.gets("tier") == "thorough";
     Exec x;
     exec_init(x, w, prop, tier);
+    x.confirm = true;
     w->setup(prop, tier);
     Json line = exec_plan(x, rep["plan"]);
     Violation want = viol_from(rep["expect"]["class"]), got;
